@@ -778,10 +778,10 @@ def run_substitute(case):
         for key in _SUBST["keys"]:
             if denoted_in(r, key, site) is None:
                 return
-    if depth == 0 and suffix in ("m", "m7", "M", "M7"):
+    if depth == 0 and suffix in ("m", "m7", "M", "M7", "dim", "dim7"):
         # the general function applies the documented relative major / minor rule to a chord whose quality is spelled out:
         # what the rule itself answers for this chord is among the general answers
-        rule = "substitute_major_for_minor" if suffix[0] == "M" else "substitute_minor_for_major"
+        rule = "substitute_major_for_minor" if suffix[0] == "M" else "substitute_minor_for_major" if suffix[0] == "m" else "substitute_diminished_for_diminished"
         ok, own = call("progressions.%s(%r, %d)" % (rule, before, index), getattr(mprog, rule), list(before), index)
         S.trans(1)
         if ok and isinstance(own, list):
@@ -789,6 +789,24 @@ def run_substitute(case):
                 S.problem(site + " vs progressions.%s" % rule, "a superset of %r" % (sorted(set(own)),), sorted(set(res)),
                           tags={"how": "rule not applied", "depth": depth})
             S.count("substitute_vs_rule_checked")
+    if depth == 0 and suffix in ("dim", "dim7") and not lower:
+        # the diminished answers of the general function are the documented cycle of minor thirds above the original root
+        for key in _RULES["other_position_keys"]:
+            oroot = H.degree_root(key, deg, k)
+            for r in sorted(set(res)):
+                if H.parse(r)[2] != suffix:
+                    continue
+                chord = denoted_in(r, key, site)
+                if chord is None:
+                    return
+                if chord == "skip":
+                    continue
+                step = ((P.pc(chord[0]) - P.pc(oroot)) % 12, (P.letter_index(chord[0]) - P.letter_index(oroot)) % 7)
+                if step not in DIM_CYCLE:
+                    S.problem(site, "diminished answer %r with its root on the minor-third cycle above %r (key %s)" % (r, oroot, key), chord[0],
+                              tags={"how": "diminished cycle", "depth": depth})
+                    return
+                S.count("substitute_diminished_cycle_checked")
     if depth > 0:
         ok, res0 = call(site, mprog.substitute, list(before), index, 0)
         S.trans(1)
